@@ -41,9 +41,16 @@ CHECKS.update({
                     "call raises, floats keep their width, complex stays complex, copy and in-place routes agree",
             "note": TRUST + "; NumPy dtype/promotion rules are assumed contracts (numpy-dtype)", "technique": TECH},
     "C18": {"category": "proof",
-            "text": "normal and exceptional frame conditions of the conversion routes and as_coeff_unit: every raising "
-                    "path leaves numbers, dtype and unit of the target unchanged; copying routes never write their input",
-            "note": TRUST, "technique": TECH},
+            "text": "normal and exceptional frame conditions proved from the real bodies: conversion routes (in_units/to copy, "
+                    "convert_to_units in place: a refused conversion leaves numbers, dtype and unit untouched), "
+                    "as_coeff_unit/simplify, and __array_ufunc__ with out=: for add, subtract, multiply, divide, maximum and "
+                    "the unary family, with a separate target and with a target aliasing an operand (integer targets "
+                    "re-typed in place, per-view dtypes), a successful call changes only its target, which then holds "
+                    "exactly the value law of the copying call over the entry values, and a refused call leaves numbers "
+                    "and unit of the target unchanged; every ufunc and handler contract carries the frame of its inputs",
+            "note": TRUST + "; NumPy's out= casting rule (same_kind) and buffer/view semantics are assumed contracts; "
+                    "augmented assignment reaches out= through NumPy's operator dispatch (not modelled); bounded driver pending",
+            "technique": TECH},
 })
 CHECKS["C15"] = {
     "category": "proof",
@@ -62,7 +69,10 @@ UFUNC_NOTE = ("; NumPy ufuncs are assumed element-wise scalar functions over rea
               "add/subtract/multiply/divide/max/min/comparisons, uninterpreted + degree-1 homogeneity for "
               "hypot/remainder/fmod); arrays abstracted to one arbitrary element, dtype, shape class and buffer "
               "identity; units that compare equal under Unit.__eq__ (isclose 1e-9) are identified; operator->ufunc "
-              "dispatch is NumPy's; reduce/accumulate/outer/out= forms and list operands are not yet under contract")
+              "dispatch is NumPy's; unary pass-through / power ufuncs and out= forms (separate target, target aliasing an "
+              "operand; NumPy's same_kind casting and per-view dtypes modelled) are under contract for add, subtract, "
+              "multiply, divide, maximum and the unary family; reduce/accumulate/outer forms, trigonometric ufuncs and "
+              "list operands are not yet under contract")
 CHECKS["C01"] = {
     "category": "proof",
     "text": "the real body of unyt_array.__array_ufunc__ is proved, per commensurability-requiring ufunc (add, "
@@ -84,7 +94,8 @@ CHECKS["C04"] = {
             "as_coeff_unit, Unit.__mul__/__truediv__/__pow__) are proved against contracts that carry coefficient x "
             "scale, so the law does not depend on what sympy cancels; re-expression invariance of whole expressions "
             "follows by induction over these per-call contracts",
-    "note": TRUST + UFUNC_NOTE + "; powers/roots/trigonometric ufuncs, reductions and dot are not yet under contract",
+    "note": TRUST + UFUNC_NOTE + "; real powers: rpow(s,1/2)**2 == s etc. and np.sqrt/np.cbrt facts are assumed; "
+            "binary power, reductions and dot are not yet under contract",
     "technique": TECH,
 }
 CHECKS["C08"] = {
